@@ -2,6 +2,7 @@ import Heathcliff.Proofs.C01Q
 import Heathcliff.Proofs.C01P
 import Heathcliff.Proofs.C01O
 import Heathcliff.Proofs.C01J
+import Heathcliff.Proofs.GenScalingSpec
 
 /- Property theorems only (statements verbatim; proofs are the helper lemmas of Heathcliff/Proofs). -/
 namespace HC.C01
@@ -225,5 +226,49 @@ theorem driver_dec_bgv_safe : type_of% @HC.driver_dec_bgv_safe := @HC.driver_dec
 
 /-- all hypotheses of `mkLevel_bfvDecrypt_eq_oracle` hold simultaneously for a size-3 ciphertext on a level the driver builds -/
 theorem c01q_hypotheses_satisfiable : type_of% @HC.c01q_hypotheses_satisfiable := @HC.c01q_hypotheses_satisfiable
+
+/-! ### translator tie, phase 4a: `multiply_add_plain` (src/util/scaling_variant.rs) generated by tools/rs2lean.py into
+    `Heathcliff/Gen/ScalingFns.lean` (`HC.GenS`); proofs in Proofs/GenScaling.lean, Proofs/GenScalingSpec.lean; see TRANSLATOR.md -/
+
+/-- the flat buffer layout of the code (`destination[j * coeff_count + i]`) and the model's `RnsPoly` are inverse to each other -/
+theorem flatten_unflatten (size n : Nat) (d : List Nat) (h : d.length = size * n) : flattenRns size n (unflattenRns size n d) = d :=
+  HC.flatten_unflatten size n d h
+
+/-- GENERATED = MODEL: `multiply_add_plain`, generated from the Rust source, run on the flat destination buffer, IS the hand model
+    `multiplyAddPlain` on the corresponding `RnsPoly` (flattened again) — successes, the `assert!` refusal of a plaintext longer than
+    the degree, and arithmetic traps (all overflows, on both sides).  The context getters are instantiated with the level's data. -/
+theorem gen_multiply_add_plain_eq (l : Level) (cdp : Array MulOperand) (qModT upperHalf : Nat) (plain : Poly) (dest : List Nat)
+    (hcdp : l.size ≤ cdp.size) (ht : l.t.value ≠ 0) (hq : qModT < 2^64)
+    (hw : ∀ i, i < plain.size → plain.getD i 0 < 2^64) (hl : dest.length = l.size * l.n) (hB : dest.length < B64) :
+    GenS.multiply_add_plain dest l.qs.toList plain.size l.n l.t cdp.toList upperHalf qModT plain.toList =
+      Except.map (flattenRns l.size l.n) (multiplyAddPlain l cdp qModT upperHalf plain (unflattenRns l.size l.n dest)) :=
+  HC.gz_multiply_add_plain_eq l cdp qModT upperHalf plain dest hcdp ht hq hw hl hB
+
+/-- the second `assert!`: a coefficient count beyond the plaintext's data buffer is refused -/
+theorem gen_multiply_add_plain_refuses_short (dest : List Nat) (cm : List Modulus) (pc N : Nat) (pm : Modulus) (cdp : List MulOperand)
+    (uh qModT : Nat) (pd : List Nat) (h : pd.length < pc) :
+    GenS.multiply_add_plain dest cm pc N pm cdp uh qModT pd = .error .refused :=
+  HC.gz_multiply_add_plain_refuses_short dest cm pc N pm cdp uh qModT pd h
+
+/-- ONE THEOREM from the Rust source to the arithmetic: the code generated from `multiply_add_plain`, on a buffer whose words under
+    the plaintext are canonical, with the context constants of a BFV level (`ScalingOK`: well-formed moduli, 2 ≤ t < 2^61, Harvey
+    operands of ⌊Q/t⌋ mod q_j; ⌊(t+1)/2⌋; Q mod t), adds Δ(m_i) = round(Q·m_i/t) modulo q_j to coefficient i of component j and
+    leaves the other words unchanged -/
+theorem gen_multiply_add_plain_spec {l : Level} {Q : Nat} {cdp : Array MulOperand} (h : ScalingOK l Q cdp) (plain : Poly) (dest : List Nat)
+    (hp : plain.size ≤ l.n) (hm : ∀ i, i < plain.size → plain.getD i 0 < l.t.value)
+    (hl : dest.length = l.size * l.n) (hB : dest.length < B64)
+    (hd : ∀ j, j < l.size → ∀ i, i < plain.size → dest.getD (j * l.n + i) 0 < (l.q j).value) :
+    GenS.multiply_add_plain dest l.qs.toList plain.size l.n l.t cdp.toList ((l.t.value + 1) / 2) (Q % l.t.value) plain.toList =
+      .ok ((List.range (l.size * l.n)).map fun p =>
+        if p % l.n < plain.size then (dest.getD p 0 + deltaM Q l.t.value (plain.getD (p % l.n) 0)) % (l.q (p / l.n)).value
+        else dest.getD p 0) :=
+  HC.gen_multiply_add_plain_spec h plain dest hp hm hl hB hd
+
+/-- non-vacuity of `ScalingOK`: N = 2, moduli 97·113, t = 17 -/
+theorem scalingOK_example : type_of% @HC.gz_ex_scalingOK := @HC.gz_ex_scalingOK
+
+/-- … and of all hypotheses of `gen_multiply_add_plain_spec` at once: buffer [5, 6 | 7, 8], plaintext (16, 3) ↦ [39, 0 | 40, 21] -/
+theorem gen_multiply_add_plain_example : type_of% @HC.gz_ex_multiply_add_plain := @HC.gz_ex_multiply_add_plain
+
 
 end HC.C01
